@@ -156,7 +156,7 @@ PROPS["C19"] = dict(
           dict(pkg="./sinks/writer", harness=["sinks/writer.go", "sinks/writer_c19.go"], entries=r"^H_C19_", params=dict(quick=dict(F=2), thorough=dict(F=2))),
           dict(pkg="./filters/gated", harness=["gated/gated.go", "gated/c19.go"], entries=r"^H_C19_", params=dict(quick={}, thorough={}), shards=dict(quick=4, thorough=8)),
           dict(pkg="./formatter_filters/cloudevents", harness=["cloudevents/cloudevents.go", "cloudevents/c19.go"], entries=r"^H_C19_|^H_C18_two_events$", params=dict(quick=dict(T=1), thorough=dict(T=1)))],
-    must_reach=["C19.core.end", "C19.table.end", "C19.writer.end", "C19.gated.end", "C19.cloudevents.end"],
+    must_reach=["C19.core.end", "C19.table.end", "C19.writer.end", "C19.gated.end", "C19.cloudevents.end", "C19.filesink.end"],
     bounds=dict(quick="pairwise (a data race is a pairwise notion); one shared Event; node instances shared or not", thorough="same"),
     assumptions=["public configuration fields that the library never writes are read-only by contract", "FileSink, ChannelSink and encrypt.Filter pairs: see DESIGN (not yet covered)"],
     trusted_base=COMMON_TRUST,
